@@ -277,9 +277,10 @@ func reachingAt(fn *ssa.Function, a *ssa.Alloc, at ssa.Instruction) []*ssa.Store
 // ---- ownership ----
 
 type ownCtx struct {
-	w       *World
-	visited map[ssa.Value]bool
-	why     []string
+	visitedLists map[listKey]bool
+	w            *World
+	visited      map[ssa.Value]bool
+	why          []string
 }
 
 // isContextRegister: v == t.Current() for an iterator-typed t.
@@ -331,6 +332,21 @@ func (o *ownCtx) owned(v ssa.Value, depth int) bool {
 			o.why = append(o.why, fmt.Sprintf("it is the result of %s() of another query (that query's own cursor), not a Copy()", x.Call.Method.Name()))
 			return false
 		}
+		// a plain helper of the package every normal return of which is owned
+		if h := x.Call.StaticCallee(); h != nil && w.inPkg(h) && len(h.Blocks) > 0 && h.Signature.Results().Len() == 1 {
+			all, any := true, false
+			for _, hb := range h.Blocks {
+				if ret, ok := normalReturn(hb); ok {
+					any = true
+					if !o.owned(retVal(ret, 0), depth+1) {
+						all = false
+					}
+				}
+			}
+			if all && any {
+				return true
+			}
+		}
 		o.why = append(o.why, "it is the result of "+x.Call.String())
 		return false
 	case *ssa.Phi:
@@ -346,6 +362,14 @@ func (o *ownCtx) owned(v ssa.Value, depth int) bool {
 		}
 		if fa, ok := x.X.(*ssa.FieldAddr); ok {
 			return o.fieldOwned(fa, depth)
+		}
+		// an element of a list every entry of which is owned
+		if ia, ok := x.X.(*ssa.IndexAddr); ok {
+			if o.listOwned(ia.X, depth+1) {
+				return true
+			}
+			o.why = append(o.why, "it is an element of a list not every entry of which is known to be a copy")
+			return false
 		}
 		vals, ok := w.cellReaching(x)
 		if !ok {
@@ -650,3 +674,71 @@ func zeroReaches(fn *ssa.Function, a *ssa.Alloc, at ssa.Instruction) bool {
 	}
 	return cur
 }
+
+// listOwned: every navigator the slice s can hold was owned when it was put
+// there: s is nil, a list grown by append from such a list with owned values,
+// a part of one, or a local variable every assignment to which is one.
+func (o *ownCtx) listOwned(s ssa.Value, depth int) bool {
+	w := o.w
+	s = strip(s)
+	if depth > 24 {
+		return false
+	}
+	key := listKey{s}
+	if o.visitedLists == nil {
+		o.visitedLists = map[listKey]bool{}
+	}
+	if o.visitedLists[key] {
+		return true
+	}
+	o.visitedLists[key] = true
+	switch x := s.(type) {
+	case *ssa.Const:
+		return x.Value == nil
+	case *ssa.MakeSlice:
+		return true // zero-valued (nil) entries only until assigned; element stores are judged by N-BUFFER
+	case *ssa.Slice:
+		return o.listOwned(x.X, depth+1)
+	case *ssa.Phi:
+		for _, e := range x.Edges {
+			if !o.listOwned(e, depth+1) {
+				return false
+			}
+		}
+		return true
+	case *ssa.Call:
+		if bi, ok := x.Call.Value.(*ssa.Builtin); ok && bi.Name() == "append" && len(x.Call.Args) == 2 {
+			if !o.listOwned(x.Call.Args[0], depth+1) {
+				return false
+			}
+			for _, v := range w.variadicElems(x.Call.Args[1]) {
+				if v == nil {
+					return o.listOwned(x.Call.Args[1], depth+1)
+				}
+				if !o.owned(v, depth+1) {
+					return false
+				}
+			}
+			return true
+		}
+	case *ssa.UnOp:
+		if x.Op == token.MUL {
+			if _, isField := x.X.(*ssa.FieldAddr); isField {
+				return false
+			}
+			vals, ok := w.cellReaching(x)
+			if !ok {
+				return false
+			}
+			for _, v := range vals {
+				if !o.listOwned(v, depth+1) {
+					return false
+				}
+			}
+			return true
+		}
+	}
+	return false
+}
+
+type listKey struct{ v ssa.Value }
